@@ -746,7 +746,10 @@ func (a *analysis) mode0(e *Expr, cur *Mode, vars env) *Mode {
 		if e.C[1] != nil {
 			r = a.mode(e.C[1], em, vars)
 		}
-		return mL(r)
+		// a slice of a STRING followed by a right-hand side is not a projection:
+		// the right-hand side is applied to the sliced string and its value is
+		// the result itself, so the result is either a list of r or r
+		return join(mL(r), r)
 	case KProj:
 		m := a.mode(e.C[0], cur, vars)
 		em := elemMode(m)
